@@ -195,8 +195,8 @@ impl<'a, F: Field> SubAssign<&'a Self> for SparsePolynomial<F> {
     // TODO: Reduce number of clones
     #[inline]
     fn sub_assign(&mut self, other: &'a Self) {
-        let self_copy = -self.clone();
-        self.coeffs = (self_copy + other.clone()).coeffs;
+        let other_neg = -other.clone();
+        self.coeffs = (self.clone() + other_neg).coeffs;
     }
 }
 
